@@ -621,6 +621,29 @@ func c11Attempts(c *core.Ctx, rt *ssa.Function) {
 		c.Fail("C11.R10", "RoundTrip/second-forward", rt.Pos(), "no second forward found")
 		return
 	}
+	// the forward that is really the last one may sit in a private helper that the
+	// second attempt was moved to: R10 is then judged inside that helper
+	fn := rt
+	for d := 0; d < 2; d++ {
+		if last.Common().IsInvoke() {
+			break
+		}
+		h := last.Common().StaticCallee()
+		if h == nil {
+			break
+		}
+		var inner ssa.CallInstruction
+		for _, cj := range facts.CallsIn(h) {
+			if cj.Common().IsInvoke() && cj.Common().Method.Name() == "RoundTrip" {
+				inner = cj
+			}
+		}
+		if inner == nil {
+			break
+		}
+		c.Analysed(facts.FuncName(h))
+		fn, last = h, inner
+	}
 	respV := ssa.Value(nil)
 	for _, ref := range *last.Value().Referrers() {
 		if ex, ok := ref.(*ssa.Extract); ok && ex.Index == 0 {
@@ -651,7 +674,7 @@ func c11Attempts(c *core.Ctx, rt *ssa.Function) {
 			return false
 		}
 		h := call.Call.StaticCallee()
-		if h == nil || h.Blocks == nil || h.Pkg != rt.Pkg {
+		if h == nil || h.Blocks == nil || h.Pkg != fn.Pkg {
 			return false
 		}
 		for i, a := range call.Call.Args {
@@ -683,7 +706,7 @@ func c11Attempts(c *core.Ctx, rt *ssa.Function) {
 		return false
 	}
 	set403 := false
-	for _, b := range rt.Blocks {
+	for _, b := range fn.Blocks {
 		for _, in := range b.Instrs {
 			if rewrites403(in) {
 				set403 = true
@@ -691,13 +714,13 @@ func c11Attempts(c *core.Ctx, rt *ssa.Function) {
 		}
 	}
 	c.Check(set403, "C11.R10", "RoundTrip/401-becomes-403", last.Pos(), "the second response's status is rewritten to 403 on the fresh-token-401 path", "RoundTrip never rewrites the second response's status to 403")
-	for _, r := range returnsOf(rt) {
+	for _, r := range returnsOf(fn) {
 		if !facts.Dominates(last, r) || len(r.Results) != 2 || facts.RetVal(r, 0) != respV {
 			continue
 		}
 		// returning the second response: either status != 401 || !tokenAcquired is known, or the 403 rewrite dominates
 		rewritten := false
-		for _, b := range rt.Blocks {
+		for _, b := range fn.Blocks {
 			for _, in := range b.Instrs {
 				if st, ok := in.(*ssa.Store); ok && facts.Dominates(st, r) {
 					if _, fld, isF := facts.FieldOf(st.Addr); isF && fld == "StatusCode" {
